@@ -25,7 +25,7 @@ FLOORS = {"quick": {"graphs_checked": 1500, "edges_checked": 40000, "distinct_no
 
 
 def plan(tier, seed):
-    n = 64 if tier == "quick" else 1600
+    n = 192 if tier == "quick" else 1600
     return [{"seed": seed * 1000907 + i, "n": 30} for i in range(n)]
 
 
